@@ -428,6 +428,24 @@ constexpr MagRepresentationOrError<T> root(T x, std::uintmax_t n) {
     return {MagRepresentationOutcome::OK, static_cast<T>(lo_diff < hi_diff ? lo : hi)};
 }
 
+// Whether `base` can be converted to the (widened) type `W` without changing its value.
+//
+// This only matters for an integral base and an integral `W`: a prime above the max of `std::intmax_t`
+// would wrap around to a negative number.  (Every base we support fits comfortably in `long double`,
+// and `Pi` is only ever a valid input for floating point types.)
+template <typename W,
+          typename B,
+          bool AreBothIntegral = (std::is_integral<W>::value && std::is_integral<B>::value)>
+struct BaseFitsInWidenedType {
+    constexpr bool operator()(B) const { return true; }
+};
+template <typename W, typename B>
+struct BaseFitsInWidenedType<W, B, true> {
+    constexpr bool operator()(B base) const {
+        return stdx::cmp_less_equal(base, std::numeric_limits<W>::max());
+    }
+};
+
 template <typename T, std::intmax_t N, std::uintmax_t D, typename B>
 constexpr MagRepresentationOrError<Widen<T>> base_power_value(B base) {
     if (N < 0) {
@@ -439,6 +457,10 @@ constexpr MagRepresentationOrError<Widen<T>> base_power_value(B base) {
             MagRepresentationOutcome::OK,
             Widen<T>{1} / inverse_result.value,
         };
+    }
+
+    if (!BaseFitsInWidenedType<Widen<T>, B>{}(base)) {
+        return {MagRepresentationOutcome::ERR_CANNOT_FIT};
     }
 
     const auto power_result =
